@@ -199,7 +199,9 @@ Definition run_case (c : list op * bool) : list obs * list obs :=
 
 Definition case_eqb (a b : list obs * list obs) : bool :=
   list_eqb obs_eqb (fst a) (fst b) &&
-  match snd a with [] => true | l => list_eqb obs_eqb l (snd b) end.
+  (* the recorded pathbadger observations may be a prefix (the harness stops recording them
+     once the known pipelining shape of pathbadger occurred in the history) *)
+  match snd a with [] => true | l => list_eqb obs_eqb (firstn (length (snd b)) l) (snd b) end.
 
 (* ---- the candidate repair of Prune: do not delete nodes that are reachable from a
    root of the pruned version that has derived roots ---- *)
